@@ -26,7 +26,7 @@ ASSUMPTIONS = [
   "'built from scratch' = the same IR with the slot's class substituted (per-instance specialisation of the parent class), "
   "rendered and elaborated normally",
 ]
-QUICK_S = 80
+QUICK_S = 240
 THOROUGH_S = 1200
 
 
